@@ -12,7 +12,7 @@ PID = 'C10'
 LEVEL = 'model_checking'
 ENGINE = 'E2+E4'
 TECHNIQUE = 'stateless exploration of all operation histories up to depth d and explicit-state BFS to closure over real objects (full-state fingerprint, fresh-world differential oracle on every transition), plus exhaustive enumeration of thread interleavings at function-entry scheduling points up to a pre-emption bound under a cooperative scheduler'
-RULE = ('ops = {zero, fire, fire-extra, fire+danger-space, failing zero} x calculators {long-lived default K0, long-lived custom K1, fresh} x shots A..G (sharing weapons, '
+RULE = ('ops = {zero, fire, fire-extra, fire+danger-space, failing zero} x calculators {long-lived default K0, long-lived custom K1, fresh} x shots A..H (sharing weapons, '
         'ammunition, drag models, atmosphere and wind objects; C raises a range error, E cannot be zeroed) + construct ops (new calculators, multi-BC models from the '
         'module-level table and from a live model\'s points, new atmosphere, new shot) + in-place edits of argument objects between computations (wind until-distances swapped, segment appended to a shared list, muzzle velocity changed), for which the reference is a world BUILT from the edited values; history cells: every history of depth <= d (quick 2, thorough 3), the last transition of '
         'each is compared with the same op in a fresh world in which only the weapon zero elevations were replayed, and every argument object is snapshotted before/after; '
@@ -26,8 +26,8 @@ ASSUMPTIONS = ['scheduling points are entries of Python functions defined in the
 LEVEL_TEXT = ('History and schedule properties have no fixed expected value; every transition of every history up to the bound, every reachable state of the closure alphabet and '
               'every schedule up to the pre-emption bound is compared with a fresh-world / solo run of the same operation on the real code.')
 
-CFG1 = {'max_calc_step_size_feet': 0.25, 'cGravityConstant': -30.0}
-SHOTS = 'ABCDEFG'
+CFG1 = {'max_calc_step_size_feet': 0.25, 'cGravityConstant': -30.0, 'cMaximumDrop': -500.0}
+SHOTS = 'ABCDEFGH'
 
 
 def world(z1=None, z2=None, edits=()):
@@ -55,7 +55,10 @@ def world(z1=None, z2=None, edits=()):
          'D': pb.Shot(W1, pb.Ammo(dmB, U.FPS(2400))),
          'E': pb.Shot(W2, pb.Ammo(dmA, U.FPS(30)), atmo=atm),                         # below the minimum velocity: cannot be zeroed
          'F': pb.Shot(W2, ammoA, atmo=atm, winds=windsA),                            # shares Ammo and the winds list with A
-         'G': pb.Shot(W1, pb.Ammo(dmC, U.FPS(2600 if 'mvG' not in edits else 2400)))}  # bullet without dimensions from the twisted barrel W1
+         'G': pb.Shot(W1, pb.Ammo(dmC, U.FPS(2600 if 'mvG' not in edits else 2400))),  # bullet without dimensions from the twisted barrel W1
+         # steeply downward: ends at the altitude floor with the default configuration and at the drop limit with K1's (every limit of every
+         # configuration is reached by some shot: velocity C/E, altitude and drop H)
+         'H': pb.Shot(W1, pb.Ammo(dmA, U.FPS(2750)), relative_angle=U.Degree(-87))}
     K = {'K0': pb.Calculator(), 'K1': pb.Calculator(_config=dict(CFG1))}
     return {'S': S, 'K': K, 'W1': W1, 'W2': W2, 'dmA': dmA, 'dmB': dmB, 'dmC': dmC, 'atm': atm, 'windsA': windsA, 'edits': set(edits)}
 
@@ -124,7 +127,8 @@ def run(op, w):
 
 
 def all_ops():
-    ops = [[kind, k, s] for kind in ('zero', 'fire', 'firex', 'danger') for k in ('K0', 'K1', 'fresh') for s in 'ABCDFG']
+    ops = [[kind, k, s] for kind in ('zero', 'fire', 'firex', 'danger') for k in ('K0', 'K1') for s in 'ABCDFGH']
+    ops += [[kind, 'fresh', s] for kind in ('zero', 'fire', 'firex', 'danger') for s in 'ACG']
     ops += [['zerofar', k, 'E'] for k in ('K0', 'K1', 'fresh')]
     ops += [['new_calc', 'K0'], ['new_calc', 'K1'], ['new_multibc'], ['new_multibc_from', 'A'], ['new_multibc_from', 'B'], ['new_atmo'], ['new_shot', 'D'],
             ['edit', 'swapB'], ['edit', 'appendA'], ['edit', 'mvG'], ['edit', 'bcA']]
@@ -198,7 +202,7 @@ def transition(w, op, label, swapped_d):
     if op[0] == 'new_shot':
         allowed.add('shot' + op[1])
     if op[0] == 'edit':
-        allowed |= {'shotA', 'shotB', 'shotC', 'shotE', 'shotF', 'shotG', 'dmA'}
+        allowed |= {'shotA', 'shotB', 'shotC', 'shotE', 'shotF', 'shotG', 'shotH', 'dmA'}
     for k in before:
         if before[k] != after.get(k) and k not in allowed:
             out.append(f'{label}: operation {op} changed {k} of the objects passed in')
@@ -215,7 +219,7 @@ def shares(ops):
     """do the ops of a history touch a common object (weapon, ammo, drag model, calculator)?"""
     objs = []
     groups = {'A': {'W1', 'dmA', 'ammoA', 'windsA'}, 'B': {'W2', 'dmB', 'atm'}, 'C': {'W1', 'dmA'}, 'D': {'W1', 'dmB'}, 'E': {'W2', 'dmA', 'atm'},
-              'F': {'W2', 'ammoA', 'dmA', 'atm', 'windsA'}, 'G': {'W1', 'dmC'}, 'swapB': {'W2', 'dmB', 'atm'}, 'appendA': {'windsA'}, 'mvG': {'dmC'}, 'bcA': {'dmA'}}
+              'F': {'W2', 'ammoA', 'dmA', 'atm', 'windsA'}, 'G': {'W1', 'dmC'}, 'H': {'W1', 'dmA'}, 'swapB': {'W2', 'dmB', 'atm'}, 'appendA': {'windsA'}, 'mvG': {'dmC'}, 'bcA': {'dmA'}}
     for op in ops:
         s = set()
         for x in op[1:]:
@@ -284,7 +288,7 @@ def chain(cell):
 # ---- closure ------------------------------------------------------------------------------------------------------------
 def closure_ops(alpha='small'):
     """sub-alphabet with a finite state space: each weapon is zeroed through one (calculator, shot) pair only"""
-    shots = 'ABCDF' if alpha == 'small' else 'ABCDFG'
+    shots = 'ABCDFH' if alpha == 'small' else 'ABCDFGH'
     ops = [['zero', 'K0', 'A'], ['zero', 'K1', 'B']]
     ops += [[kind, k, s] for kind in ('fire', 'firex') for k in ('K0', 'K1') for s in shots]
     ops += [['danger', 'K0', 'A'], ['danger', 'K1', 'F'], ['zerofar', 'K0', 'E'], ['new_calc', 'K0'], ['new_multibc_from', 'A'], ['new_shot', 'D']]
@@ -375,5 +379,5 @@ def plan(tier):
     cyc = [[[ix(['zero', 'K0', 'A']), ix(['fire', 'K0', 'B']), ix(['firex', 'K0', 'C']), fire_k0_a], reps],
            [[ix(['fire', 'K1', 'F']), ix(['danger', 'K1', 'A']), ix(['zerofar', 'K1', 'E']), ix(['new_multibc_from', 'A'])], reps],
            [[ix(['firex', 'K0', 'D']), ix(['zero', 'K1', 'D']), ix(['fire', 'K0', 'D']), ix(['new_shot', 'D'])], reps],
-           [[ix(['danger', 'K0', 'F']), ix(['zero', 'fresh', 'F']), ix(['fire', 'K0', 'A']), ix(['new_calc', 'K0'])], reps]]
+           [[ix(['danger', 'K0', 'F']), ix(['zero', 'fresh', 'A']), ix(['fire', 'K0', 'A']), ix(['new_calc', 'K0'])], reps]]
     return [('histories', hs), ('chain', cyc)]
